@@ -239,6 +239,16 @@ func c15Scalar(s *schema.Node, stored string, got *jval, sc *c15Scenario, main s
 			return fmt.Sprintf("expected identity name string, found %c %q", got.kind, got.s)
 		}
 		name := got.s
+		// RFC 7951 6.8: an identity defined in another module than the leaf must
+		// carry its module name, otherwise the text does not identify it
+		leafMod := modOf(s, main)
+		idMod := schema.IdentModule(stored)
+		if idMod == "m" {
+			idMod = main
+		}
+		if idMod != leafMod && !strings.Contains(name, ":") {
+			return fmt.Sprintf("identity %s is defined in module %q, the leaf in %q: the value must be module-qualified, found %q", stored, idMod, leafMod, got.s)
+		}
 		if i := strings.Index(name, ":"); i >= 0 {
 			pm := name[:i]
 			name = name[i+1:]
